@@ -621,9 +621,9 @@ namespace detail
 	GLM_FUNC_QUALIFIER vec3 unpackF2x11_1x10(uint32 v)
 	{
 		return vec3(
-			detail::packed11bitToFloat(v >> 0),
-			detail::packed11bitToFloat(v >> 11),
-			detail::packed10bitToFloat(v >> 22));
+			detail::packed11bitToFloat((v >> 0) & ((1 << 11) - 1)),
+			detail::packed11bitToFloat((v >> 11) & ((1 << 11) - 1)),
+			detail::packed10bitToFloat((v >> 22) & ((1 << 10) - 1)));
 	}
 
 	GLM_FUNC_QUALIFIER uint32 packF3x9_E1x5(vec3 const& v)
